@@ -693,11 +693,16 @@ pub fn gen_case(r: &mut Rng, p: &Profile) -> Case {
         }
     }
     let faulty = r.chance(p.fault.0, p.fault.1);
+    // one script in six belongs to a transport on which a write can take time (kinds 4 / 5: the call lasts `amt` ms of
+    // virtual time and then accepts one byte / everything)
+    let slow = r.chance(1, 6);
     let n = r.range(p.script_len.0, p.script_len.1);
     let script = (0..n)
         .map(|_| {
             if faulty && r.chance(1, 10) {
                 (*r.pick(&p.fault_kinds), 0)
+            } else if slow && r.chance(1, 10) {
+                (*r.pick(&[4u64, 5]), *r.pick(&[1u64, 100, 499, 500, 501, 1000, 2500, 4999, 5000, 5001, 12000]))
             } else {
                 (0, *r.pick(&p.chunks))
             }
